@@ -80,8 +80,8 @@ def coverage_protos():
     fix = gen.fix
     dyn = gen.dyn
     out = []
-    md = [('Common', [MetaEntry('Seq', base=num('Seq', 'u32'), doc='seq no'), MetaEntry('Code', base=fix('Code', 4), doc='code'),
-                      MetaEntry('Alt', ref='Seq', doc='alias')])]
+    md = [('Common', [MetaEntry('Seq', base=num('Seq', 'u32'), doc='seq no'), MetaEntry('Alt', ref='Seq', doc='alias'),
+                      MetaEntry('Code', base=fix('Code', 4), doc='code')])]
     p1 = Proto([Packet('RootCa', [num('MsgType', 'u16', doc='kind'),
                                   Field('len', 'BodyLen', ntype='u32', target='Body', prefixed=False, typed=True, doc='len'),
                                   Field('meta', 'Seq', entry='Seq', named=False),
